@@ -1,6 +1,6 @@
-(* C09 -- AHB expressions: indicator normalisation and "the first fulfilled part decides".
-   (The splitting of the string into parts -- the AHB scanner -- is part 2, see DESIGN.md section 12.) *)
-From Ahb Require Import Model.Prelude Model.Grammar Gen.Gen_logic Gen.Gen_valmaps Gen.Gen_enums Model.EvalRC Model.EvalFC Model.EvalAhb Proofs.C09_ahb.
+(* C09 -- AHB expressions are split into their parts (scanner model Model/Ahb.v, tied to Lark by correspondence), the
+   indicators are normalised, and the first fulfilled part decides. *)
+From Ahb Require Import Model.Prelude Model.Grammar Gen.Gen_logic Gen.Gen_valmaps Gen.Gen_enums Model.EvalRC Model.EvalFC Model.EvalAhb Gen.Gen_grammar Gen.Gen_ahbgrammar Model.Lex Model.Ahb Proofs.C09_ahb Proofs.C09_split.
 
 (* every ASCII letter-case variant of M/Muss, S/Soll, K/Kann, X, O, U is mapped to its canonical indicator
    (over the callbacks regenerated from /repo) *)
@@ -34,3 +34,21 @@ Theorem C09_bare_indicator : forall i, fulfilled_part (bare_result i) = true /\ 
   a_fc (bare_result i) = fc_ok.
 Proof. exact bare_counts_fulfilled. Qed.
 Print Assumptions C09_bare_indicator.
+
+(* splitting: any number of modal-mark parts in any ASCII letter-case spelling, each followed by a condition text over the
+   CONDITION_EXPRESSION alphabet (at least two characters, e.g. every "[n]..." with white space around it), optionally
+   ending in a bare modal mark, scans into exactly these parts in written order *)
+Theorem C09_split : forall ps tail, Forall (fun p => part_ok p = true) ps -> (forall t, tail = Some t -> In t mm_spellings) ->
+  (ps <> [] \/ tail <> None) -> parse_ahb (print_parts ps tail) = Ok (expected ps tail).
+Proof. exact split_modal_mark_parts. Qed.
+Print Assumptions C09_split.
+
+Theorem C09_split_prefix_operator : forall po c, In po po_spellings -> cond_ok (last po 0%N) c = true ->
+  parse_ahb (po ++ c) = Ok [RP (TokPO po) (Some c)].
+Proof. exact split_prefix_operator_part. Qed.
+Print Assumptions C09_split_prefix_operator.
+
+Theorem C09_split_bare : forall w, (In w mm_spellings -> parse_ahb w = Ok [RP (TokMM w) None]) /\
+                                   (In w po_spellings -> parse_ahb w = Ok [RP (TokPO w) None]).
+Proof. exact split_bare_indicator. Qed.
+Print Assumptions C09_split_bare.
